@@ -10,6 +10,7 @@ pub mod c09;
 pub mod c10;
 pub mod c10_inv;
 pub mod c10_model;
+pub mod c10_watch;
 pub mod c11;
 pub mod c12;
 pub mod c13;
